@@ -408,7 +408,12 @@ def run_one(tape, only=None):
         # the model's own file list (independent of find): by construction
         exp_a = [(f"a:{_fname(i, w)}", _ftime(i, w)) for i in range(n)]
         if [(_key(f.path), f.times[0]) for f in infos_a] != exp_a:
-            raise AssertionError("harness: find() disagrees with created files")
+            # find() itself is C01's subject, but the run cannot go on
+            return dict(res, violations=[_viol(
+                "C10/setup/find-differs",
+                f"find() returned {[_key(f.path) for f in infos_a]} for the "
+                f"files {[k for k, _ in exp_a]}")], wdigest=digest_of(w),
+                edigest="setup", nontrivial=False)
 
         def main():
             with warnings.catch_warnings(record=True) as wlist:
